@@ -13,9 +13,11 @@ Rec == ndJsonDeserialize(IOEnv.TRACE)
 VARIABLES l, failed
 vars == <<l, failed>>
 
-Body == {"minus", "plus", "zero", "cin", "m_ours", "m_anc", "m_theirs", "m_end"}   \* (in this mode conflict markers are hunk lines)
+Body == {"minus", "plus", "zero", "cin", "m_ours", "m_anc", "m_theirs", "m_end",   \* (in this mode conflict markers are hunk lines)
+         "minus3", "plus3",          \* hunk lines of a diff -u stream whose text looks like a header ("--- x", "+++ x")
+         "subm", "subp"}             \* the two "Subproject commit" lines of a submodule's hunk
 HeaderLines == {"diff", "index", "newfile", "delfile", "simil", "renfrom", "rento", "copyfrom", "copyto", "oldmode",
-                "newmode", "binary", "mmm", "ppp"}
+                "newmode", "binary", "mmm", "ppp", "du", "onlyin", "sublog"}
 Exempt(e, i) ==
   LET c == e.cls[i] o == {e.over[k] : k \in DOMAIN e.over} IN
   \/ "markers" \in o /\ c \in Body
